@@ -171,11 +171,7 @@ func (r *run) accessHook(p interface{}, write bool, site string) {
 		if v.IsNil() {
 			return
 		}
-		if e := v.Elem(); e.Kind() == reflect.Map && !e.IsNil() {
-			key = e.Pointer()
-		} else {
-			key = v.Pointer()
-		}
+		key = v.Pointer()
 	default:
 		return
 	}
@@ -208,8 +204,8 @@ func (r *run) accessHook(p interface{}, write bool, site string) {
 			return "read"
 		}
 		what := site
-		if i := strings.LastIndexByte(what, ' '); i >= 0 {
-			what = what[i+1:]
+		if f := strings.Fields(site); len(f) >= 2 {
+			what = f[1]
 		}
 		if i := strings.IndexByte(what, '.'); i >= 0 {
 			what = what[i+1:]
